@@ -10,7 +10,7 @@ TRANSPARENT = re.compile(
     r"(::deref$|::deref_mut$|::clone$|::as_ref$|::as_mut$|::borrow$|::borrow_mut$|::into$|::as_slice$|"
     r"::as_mut_slice$|::as_str$|::to_owned$|::by_ref$|::as_deref$|::cloned$|::copied$|::into_iter$|::iter$|"
     r"<impl core::convert::From<T> for T>::from$|::unwrap$|::expect$|::start$|::end$|"
-    r"core::convert::num::<impl core::convert::From<\w+> for \w+>::from$)")
+    r"core::convert::num::<impl core::convert::From<\w+> for \w+>::from$|Try>::branch$)")
 
 
 def call_name(t):
@@ -173,6 +173,92 @@ def origin_fields(fn, op_or_local, **kw):
         if o.kind == "field":
             res.extend(lib.place_fields(o.place))
     return res
+
+
+def nearest_field(fn, op_or_local, **kw):
+    """(adt, variant, field) of the innermost field projection of the nearest place the value
+    was loaded from, or None."""
+    os_ = origins(fn, op_or_local, **kw) if isinstance(op_or_local, int) else operand_origins(fn, op_or_local, **kw)
+    for o in os_:
+        if o.kind == "field":
+            fs = lib.place_fields(o.place)
+            if fs:
+                return fs[-1]
+    return None
+
+
+def const_items(fn, op_or_local):
+    """Paths of named constants an operand's value comes from, looking into promoted bodies."""
+    res = []
+    for c in origin_consts(fn, op_or_local):
+        if c.get("item") and "promoted" not in c:
+            res.append(c["item"])
+        if "promoted" in c:
+            body = fn.j.get("promoted", [])
+            if c["promoted"] < len(body):
+                for b in body[c["promoted"]]["blocks"]:
+                    for st in b["stmts"]:
+                        if st["k"] == "assign":
+                            for o in lib.rvalue_operands(st["rv"]):
+                                if o.get("k") == "const" and o.get("item"):
+                                    res.append(o["item"])
+    return res
+
+
+def date_bound(fn, op_or_local):
+    """'DATE_START' / 'DATE_END' when the operand is that constant or its `.date()`."""
+    items = list(const_items(fn, op_or_local))
+    for c in origin_calls(fn, op_or_local):
+        if call_name(c) in ("chrono::naive::datetime::NaiveDateTime::date", "chrono::naive::datetime::NaiveDateTime::time") or call_name(c).endswith("Datelike>::year"):
+            items += const_items(fn, c["args"][0])
+    names = {i.split("::")[-1] for i in items if i.startswith("opening_hours::opening_hours::DATE_")}
+    return sorted(names)[0] if len(names) == 1 else None
+
+
+def const_variants(fn, op_or_local):
+    """Enum variants ("ADT::Variant") a constant operand denotes: scalar enum constants, or
+    aggregates built in the promoted body / in place."""
+    res = []
+    os_ = origins(fn, op_or_local) if isinstance(op_or_local, int) else operand_origins(fn, op_or_local)
+    for o in os_:
+        if o.kind == "agg" and o.node["rv"].get("ak") == "adt" and not o.node["rv"]["ops"]:
+            res.append("%s::%s" % (o.node["rv"]["adt"], o.node["rv"]["variant"]))
+        if o.kind == "const":
+            c = o.node
+            if c.get("variant"):
+                res.append("%s::%s" % (c["ty"].lstrip("&"), c["variant"]))
+            if "promoted" in c:
+                body = fn.j.get("promoted", [])
+                if c["promoted"] < len(body):
+                    for b in body[c["promoted"]]["blocks"]:
+                        for st in b["stmts"]:
+                            if st["k"] == "assign" and st["rv"]["k"] == "agg" and st["rv"].get("ak") == "adt" and not st["rv"]["ops"]:
+                                res.append("%s::%s" % (st["rv"]["adt"], st["rv"]["variant"]))
+                            if st["k"] == "assign" and st["rv"]["k"] == "use" and st["rv"]["op"].get("variant"):
+                                res.append("%s::%s" % (st["rv"]["op"]["ty"], st["rv"]["op"]["variant"]))
+    return res
+
+
+def closure_of_operand(fn, op):
+    """The closure definition passed as an operand (built in this body or a capture-less const)."""
+    if op.get("k") == "const" and op.get("closure"):
+        return op["closure"]
+    pl = lib.operand_place(op)
+    if pl is not None:
+        for _, d in fn.defs_of(pl["l"]):
+            if d["k"] == "assign" and d["rv"]["k"] == "agg" and d["rv"].get("ak") == "closure":
+                return d["rv"]["closure"]
+    return None
+
+
+def closure_captures(fn, op):
+    """Operands captured by the closure built for this operand (in capture order)."""
+    pl = lib.operand_place(op)
+    if pl is not None:
+        for _, d in fn.defs_of(pl["l"]):
+            if d["k"] == "assign" and d["rv"]["k"] == "agg" and d["rv"].get("ak") == "closure":
+                return d["rv"]["ops"]
+    return []
 
 
 def deep_origin_calls(fn, op_or_local, depth=6):
